@@ -7,6 +7,8 @@ PROPS = [json.loads(l)["id"] for l in open(os.path.join(V, "properties.jsonl"))]
 COMMON_NOTE = ("Trusted: Lean 4.33 kernel (+ axioms propext, Classical.choice, Quot.sound only; no native_decide/bv_decide/sorry, audited every run); "
                "the generator (clang-14 AST, K translator, probes) and the correspondence harness + differ; gcc/ASan/UBSan. ")
 
+CRED_TXT = 'Credential model lean/Munge/Model/Cred.lean (job_exec -> recv -> enc/dec_process_msg -> send) over abstract primitives: its decision kernels, stage orchestration, constants and error texts are regenerated from dec.c/enc.c/headers every run, its parsers/packers are hand-written mirrors tied byte-for-byte to the real job.c/m_msg.c/enc.c/dec.c/base64.c/zip.c/cred.c/replay.c/auth_recv.c by harness/h_cred.c (toy primitives with Lean twins; OpenSSL/zlib/bzlib build judged by oracle). '
+
 CLAIMS = {
  "C19": dict(
    text="Proof. Ten Lean theorems over an executable model of base64.c whose tables, class constants and length formulas are regenerated from the C source on every run: "
@@ -68,6 +70,95 @@ CLAIMS = {
    note=COMMON_NOTE + "_pack/_unpack/_alloc/_copy themselves and the step order inside recv/send are hand-modelled and tied by correspondence and the chain-order theorem; a socket is modelled as bytes followed by EOF. Found F2 and F8 (fixed).",
    technique="Lean 4 theorems (generic interpreter proofs + decide on field lists regenerated from the C source) + differential correspondence under ASan + python reference codec",
    ref="5/C14"),
+
+ "C01": dict(
+   text="Proof. " + CRED_TXT + "Theorems (Props/C01.lean): ROUND TRIP - for every primitive table satisfying PrimLaws, sane configuration, well-formed request (payload <= 1 MiB, any cipher/MAC/zip/TTL/"
+        "restriction), salt/IV, identity and clock: a successful encode followed by a decode by an authorised client inside the window on a daemon that has not seen it returns the byte-identical "
+        "payload and length, the encoder's uid/gid, restrictions, resolved cipher/MAC/zip, capped TTL, encode time, origin address; option resolution (defaults, empty payload => no zip, TTL); "
+        "requests above MUNGE_MAXIMUM_REQ_LEN are refused with no reply. PrimLaws is proved for the toy instance (Lemmas/ToyLaws.lean). Tie per run: ~800 encode+decode pairs byte-exact (toy), "
+        "~400 on the real primitives by oracle incl. 64 KiB payloads, five size-limit requests around 1 MiB.",
+   note=COMMON_NOTE + "PrimLaws for OpenSSL/zlib/bzlib is validated by the real-primitive stream, not proved; libmunge's client-side size check is not modelled (daemon-side gate is).",
+   technique="Lean 4 theorems (parse∘print = id chains, generic in the primitives) + kernels regenerated from source + byte-exact differential correspondence under ASan",
+   ref="5/C01"),
+ "C02": dict(
+   text="Proof. " + CRED_TXT + "Theorems (Props/C02.lean): a decode that discloses anything (success / expired / rewound / replayed) implies the credential parsed as OUTER||MAC||INNER, padding "
+        "removal succeeded and MAC = mac(macKey, OUTER || decrypted still-compressed INNER) compared over the whole digest; a MAC mismatch or any parse failure before the MAC is a hard error whose "
+        "message carries no payload, uid, gid, ttl, times (and leaves the replay state unchanged); under the NAMED hypothesis Unforgeable every accepted credential's MAC'd content was emitted by a "
+        "key holder; under KeySeparation a credential MAC'd under another key is never accepted. Tie per run: ~3k byte-level edits (bit flips, every truncation, extensions, block swaps, splices, "
+        "header rewrites, armor variants, foreign key) on toy (byte-exact) and real builds (oracle: hard error, sanitised reply).",
+   note=COMMON_NOTE + "Cryptographic strength is assumed only through the explicit hypotheses Unforgeable / KeySeparation of reject_altered / reject_foreign_key; the logic (MAC coverage, order of checks, full-length comparison, sanitised reply) is what is proved.",
+   technique="Lean 4 theorems over the credential model with named cryptographic hypotheses + differential correspondence on exhaustive byte-level edits",
+   ref="5/C02"),
+ "C03": dict(
+   text="Proof. " + CRED_TXT + "Theorems (Props/C03.lean): no wire field of an encode/decode request sets a client or credential identity; the inner layer carries be32(uid)||be32(gid) of the PEER at the "
+        "documented offset for every request; requests differing only in identity-looking fields get the same reply bytes; changing the peer changes exactly those 8 bytes; no peer => no credential; "
+        "the identity reaching the authorisation kernel is the peer's and the middle stages preserve it. Tie per run: getsockopt(SO_PEERCRED) interposed over 200 (euid, egid) pairs incl. 0, >= 2^31, "
+        "0xFFFFFFFE, ordinary and crafted ENC_REQs (uid/gid-looking payloads, trailing fields), credentials read back by an independent python v3 reference (real build) and byte-exact vs model (toy).",
+   note=COMMON_NOTE + "SO_PEERCRED semantics (the kernel's attestation) are trusted; the real auth_recv.c runs with getsockopt interposed.",
+   technique="Lean 4 non-interference theorems over the credential model + differential correspondence with interposed peer credentials + independent format reference",
+   ref="5/C03"),
+ "C08": dict(
+   text="Proof (PARTIAL: bounds and state logic proved; memory safety / leaks / liveness of the C shown by sanitizers on explored inputs). " + CRED_TXT + "Theorems (Props/C08.lean, also C14.unpack_safe, "
+        "C19.decode_bound): for EVERY byte string the outer and inner credential parsers never read outside the buffer (the model tests a bound only where the C does and routes every access through "
+        "checked accessors that would yield `oob`), the payload handed to the reply lies inside it, a whole decode never reads out of bounds; the length gate applies to the header alone; a failed "
+        "request never changes the replay state and a successful one adds exactly its key; every transaction ends in a well-formed reply or a closed connection. Tie per run: ~2.5k hostile requests "
+        "through the real _job_exec under ASan/UBSan/LSan (all header fields x classes, all message types with typed bodies, every truncation of requests and of 5 credentials, bit flips, junk, "
+        "validly-MAC'd forged interiors incl. corrupt and lying zip streams) byte-exact vs model incl. per-request leak flag, the same on the OpenSSL build, canary request every 50.",
+   note=COMMON_NOTE + "No allocation ledger theorem (leak-freedom is LeakSanitizer per request); stalls/timeouts are not exercised; OpenSSL/zlib internals outside. Found F1 F2 F4 F8 F9 (fixed). Misaligned zip-header access (zip.c) is UB on strict-alignment targets; alignment checking is disabled in the harness and the observation is recorded in DESIGN.",
+   technique="Lean 4 theorems on the parsers' bounds logic + byte-exact differential correspondence under ASan/UBSan/LSan on hostile streams",
+   ref="5/C08"),
+ "C09": dict(
+   text="Proof. " + CRED_TXT + "Theorems (Props/C09.lean; also C06.soft_errors_keep_payload and C04.unauthorized_reply_is_reset on the translated orchestration): every decode that fails for a reason other "
+        "than expired/rewound/replayed sends exactly errorOnlyRsp(retry, code, text) - payload length 0, ids at the ANY sentinel, cipher/MAC/zip/TTL/times/address zero, no realm/address/payload bytes; "
+        "a failed encode likewise; for an encrypted credential a padding-removal failure and a MAC mismatch produce THE SAME reply bytes (EMUNGE_CRED_INVALID, default text) and the MAC is still "
+        "computed on the padding-failure path. Tie per run: ~850 ops - control decodes and hard failures with full reply bytes vs the error-only form, every byte of the last cipher block flipped, "
+        "previous block, MAC field, removed/added block on AES/Blowfish/CAST credentials (toy byte-exact; OpenSSL by oracle: all replies of one credential identical).",
+   note=COMMON_NOTE + "Timing indistinguishability is not a property of the model and is not claimed.",
+   technique="Lean 4 theorems over the credential model and the translated orchestration + byte-exact differential correspondence on failure replies",
+   ref="5/C09"),
+ "C10": dict(
+   text="Proof. " + CRED_TXT + "SpecV3 (Model/SpecV3.lean) is written from doc/credential_v3_format.txt alone (own byte order, own base64, own layout). Theorems (Props/C10.lean): for every request/"
+        "configuration/environment/primitive table the credential the daemon model emits equals SpecV3.emit of the resolved fields; every SpecV3 credential of well-formed fields is accepted by the "
+        "daemon model with the same field values; the streaming armor equals RFC 4648 on the concatenation. Tie per run: toy build byte-exact vs model; real build both ways against an independent "
+        "python reference (hashlib/hmac/zlib/bz2 + openssl enc) over every supported cipher x MAC x zip; the suite's frozen credential.",
+   note=COMMON_NOTE + "The python reference is support, not proof; PrimLaws for the real primitives is validated, not proved.",
+   technique="Lean 4 refinement theorems between the daemon model and an independent format specification + byte-exact correspondence + two-way cross-check with a python reference",
+   ref="5/C10"),
+ "C05": dict(
+   text="Proof. Theorems (Props/C05.lean) over models of hash.c / replay.c and the decode tail whose comparators, chain-walk operators, link position, key bytes, retry gate, stage order and the "
+        "roll-back condition of dec_process_msg are regenerated from the C source every run: the hash table refines a finite set for every comparator/hash/size/op sequence; replay_insert returns 1 "
+        "iff present; failed decodes never consume; distinct keys never interfere; the generated roll-back condition implies 'this request inserted'; hence for every sequential history and EVERY "
+        "interleaving of request steps at most one first-attempt SUCCESS per credential while its record is live (retry-flagged requests are the documented exception). Tie per run: ~66k ops on the "
+        "real hash.c/replay.c/dec.c tail (adversarial keys, bucket collisions, equal MAC different expiry) vs model, python-set oracle; thorough: 16-thread insert races.",
+   note=COMMON_NOTE + "The mutex's exclusion is trusted (structural lock/unlock certificates are generated and checked); distinctness of credentials is up to the 16 kept MAC bytes + expiry second. Found F7 (fixed).",
+   technique="Lean 4 refinement + invariant-over-interleavings theorems on a model regenerated from the C source + differential correspondence",
+   ref="5/C05"),
+ "C07": dict(
+   text="Proof. Theorems (Props/C07.lean): replay_purge at `now` removes exactly the records with t_expired < now (strict, operator as generated); it re-arms every MUNGE_REPLAY_PURGE_SECS; a request "
+        "that passes the time check has now <= t_expired; hence once decoded, at every later time at which the credential still passes the time check its record is present whatever purges happened and a "
+        "second non-retry presentation is REPLAYED up to and including the last valid second; after a purge nothing expired remains, so a record present at `now` was decoded within ttl' + skew + one "
+        "purge period. Tie per run: ~62k ops on the real replay.c/hash.c with interposed time(), purge ticks at every offset around the expiry second.",
+   note=COMMON_NOTE + "Periodic recurrence of the purge timer itself is C18; future-dated credentials live up to 2*ttl' (stated in the theorem).",
+   technique="Lean 4 history theorems on a model regenerated from the C source + differential correspondence with interposed clock",
+   ref="5/C07"),
+ "C12": dict(
+   text="Proof. Theorems (Props/C12.lean) over a transition system whose atomic steps are the mutex sections of work.c and whose wait/signal predicates, idle test, cancel-disable bracket and event "
+        "orders are regenerated from work.c/job.c every run - any number of workers and items, every step sequence, spurious wake-ups, deferred cancellation: each wait loop waits exactly while "
+        "something is queued or in progress (= negation of the signal predicate); accepted = queued + held + done with each item dequeued once; whenever work_wait / the wait of work_fini(w,1) is "
+        "left nothing is queued or in progress; at cancellation every accepted item is done; no lost wake-up; progress variant. Tie per run: ~17k forced schedules on the real work.c (emulated "
+        "condition variables, no sleeps) line-exact vs model + oracle.",
+   note=COMMON_NOTE + "pthread mutex/condvar/cancellation semantics as written into the model are assumed; single acceptor thread as in job_accept; liveness is enabledness + variant, not a temporal theorem. Found F3 (fixed).",
+   technique="Lean 4 invariant proofs over a transition system with predicates regenerated from the C source + forced-schedule differential correspondence",
+   ref="5/C12"),
+ "C18": dict(
+   text="Proof. 20 theorems (Props/C18.lean) over arbitrary traces of set/cancel/tick/scan/run with comparator, insert-walk polarity, head-change signal tests, id bump, lock/dispatch event order, "
+        "re-arm sites of the three periodic services and the caller classes regenerated from timer.c/clock.c/replay.c/gids.c/random.c every run: sorted stable list invariant; each timer fires at most "
+        "once and exactly once if never cancelled and a scan happens at now >= ts; never early; order by (expiry, set order); cancel semantics; callbacks may set/cancel (lock released during "
+        "dispatch); self-re-arming services stay pending forever for every clock sequence incl. forward jumps and cannot spin inside one scan; no expired timer is left waiting. Tie per run: the REAL "
+        "timer thread under virtual time (clock_gettime / pthread_cond_* interposed), ~71k ops line-exact vs model, python oracle; real replay_purge/_gids_map_update/_random_stir_entropy recurrence.",
+   note=COMMON_NOTE + "External ops are issued while the thread is at rest (plus set/cancel from callbacks); interleavings at critical-section granularity rest on the generated lock certificates. _timer_id++ at LONG_MAX is signed overflow (unreachable: 2^63 sets).",
+   technique="Lean 4 trace-invariant theorems on a model regenerated from the C source + virtual-time differential correspondence on the real timer thread",
+   ref="5/C18"),
 }
 NA_REASON = "check not built yet (work in progress, see DESIGN.md section 7 staging)"
 
